@@ -152,7 +152,7 @@ theorem stripF_new (I : ObjIface σ) (id : Nat) (chk : Bool) :
     stripF (FdtRecv.new I id chk) = FdtRecv.new I id chk := rfl
 
 theorem fdtEntry_strip (I : ObjIface σ) (s : State σ) (id : Nat) :
-    fdtEntry I (stripS s) id = (stripS (fdtEntry I s id).1, stripF (fdtEntry I s id).2) := by
+    fdtEntry I (stripS s) id = (stripS (fdtEntry I s id p).1, stripF (fdtEntry I s id p).2) := by
   unfold fdtEntry
   have h1 : (stripS s).fdtReceivers = s.fdtReceivers.map (fun kf => (kf.1, stripF kf.2)) := rfl
   have h2 : (stripS s).cfg = s.cfg := rfl
@@ -407,10 +407,10 @@ theorem fdtDispatch_strip (I : ObjIface σ) (a b : State σ) (id : Nat) (g' g : 
     simp only []
     rw [← fdtCompleted_strip I a id, ← fdtCompleted_strip I b id, hab]
 
-theorem pushFdtObj_strip (I : ObjIface σ) (s : State σ) (p : Pkt) (now now' : Int) (ans : FdtAns)
+theorem pushFdtObjP_strip (I : ObjIface σ) (s : State σ) (p : Pkt) (now now' : Int) (ans : FdtAns)
     (hcfg : s.cfg.expCheck = false) (hall : AllFdt NC s) :
-    mapResS (pushFdtObj I (stripS s) p now' ans) = mapResS (pushFdtObj I s p now ans) := by
-  unfold pushFdtObj
+    mapResS (pushFdtObj' I (stripS s) p now' ans) = mapResS (pushFdtObj' I s p now ans) := by
+  unfold pushFdtObj'
   cases hid : p.fdtId with
   | none =>
     simp only []
@@ -430,29 +430,29 @@ theorem pushFdtObj_strip (I : ObjIface σ) (s : State σ) (p : Pkt) (now now' : 
     · rw [fdtEntry_strip]
       simp only [stripF_st]
       -- the entry is an `NC` instance
-      have hentry : NC (fdtEntry I s id).2 := by
+      have hentry : NC (fdtEntry I s id p).2 := by
         have := fdtEntry_all I NC s id (by rw [hcfg]; exact ⟨rfl, by simp [FdtRecv.new]⟩) hall
         exact this.2.1
       split
       · simp only [mapResS, stripS_idem]
-      · have hg := nc_push I (fdtEntry I s id).2 p now ans hentry
-        have hg' := nc_push I (stripF (fdtEntry I s id).2) p now' ans hentry
-        have heq : stripF ((stripF (fdtEntry I s id).2).push I p now' ans) =
-            stripF ((fdtEntry I s id).2.push I p now ans) := by
+      · have hg := nc_push I (fdtEntry I s id p).2 p now ans hentry
+        have hg' := nc_push I (stripF (fdtEntry I s id p).2) p now' ans hentry
+        have heq : stripF ((stripF (fdtEntry I s id p).2).push I p now' ans) =
+            stripF ((fdtEntry I s id p).2.push I p now ans) := by
           rw [stripF_push, stripF_push]; rfl
-        have hst : ((stripF (fdtEntry I s id).2).push I p now' ans).st = ((fdtEntry I s id).2.push I p now ans).st :=
+        have hst : ((stripF (fdtEntry I s id p).2).push I p now' ans).st = ((fdtEntry I s id p).2.push I p now ans).st :=
           congrArg (fun x => (stripF x).st) rfl |>.trans (congrArg FdtRecv.st heq) |>.trans rfl
-        have hu' : (if ((stripF (fdtEntry I s id).2).push I p now' ans).st = FdtState.complete then
-              ((stripF (fdtEntry I s id).2).push I p now' ans).updateExpired now'
-            else Except.ok ((stripF (fdtEntry I s id).2).push I p now' ans)) =
-            .ok ((stripF (fdtEntry I s id).2).push I p now' ans) := by
+        have hu' : (if ((stripF (fdtEntry I s id p).2).push I p now' ans).st = FdtState.complete then
+              ((stripF (fdtEntry I s id p).2).push I p now' ans).updateExpired now'
+            else Except.ok ((stripF (fdtEntry I s id p).2).push I p now' ans)) =
+            .ok ((stripF (fdtEntry I s id p).2).push I p now' ans) := by
           split
           · exact updateExpired_nc _ _ hg'.1
           · rfl
-        have hu : (if ((fdtEntry I s id).2.push I p now ans).st = FdtState.complete then
-              ((fdtEntry I s id).2.push I p now ans).updateExpired now
-            else Except.ok ((fdtEntry I s id).2.push I p now ans)) =
-            .ok ((fdtEntry I s id).2.push I p now ans) := by
+        have hu : (if ((fdtEntry I s id p).2.push I p now ans).st = FdtState.complete then
+              ((fdtEntry I s id p).2.push I p now ans).updateExpired now
+            else Except.ok ((fdtEntry I s id p).2.push I p now ans)) =
+            .ok ((fdtEntry I s id p).2.push I p now ans) := by
           split
           · exact updateExpired_nc _ _ hg.1
           · rfl
